@@ -160,9 +160,11 @@ def parse_result(line):
     return d
 
 
-def run_proc(cmd, timeout):
+def run_proc(cmd, timeout, extra_env=None):
     env = dict(os.environ)
     env.setdefault("TSAN_OPTIONS", "")
+    if extra_env:
+        env.update(extra_env)
     try:
         r = subprocess.run(cmd, stdout=subprocess.PIPE, stderr=subprocess.PIPE, text=True, timeout=timeout, env=env,
                            errors="replace")
@@ -206,11 +208,11 @@ def run_single(check, flavour, seed, thorough, timeout, emit=None, events=None, 
     return rc, out, err
 
 
-def run_plan(flavour, plan_path, timeout, events=None):
+def run_plan(flavour, plan_path, timeout, events=None, fast_watchdog=False):
     cmd = [binary(flavour), "--plan", plan_path]
     if events:
         cmd += ["--events", events]
-    rc, out, err = run_proc(cmd, timeout)
+    rc, out, err = run_proc(cmd, timeout, extra_env=(dict(VS_WATCHDOG_MS="1500", VS_FREERUN_MS="2500") if fast_watchdog else None))
     res = None
     detail = ""
     lines = out.splitlines()
@@ -267,7 +269,7 @@ def harness_only_tsan(err):
 
 # --------------------------------------------------------------------------- findings
 def load_findings():
-    p = os.path.join(VERIF, "known_findings.json")
+    p = os.environ.get("VERIF_FINDINGS_FILE") or os.path.join(VERIF, "known_findings.json")   # override: selftest only
     if not os.path.exists(p):
         return []
     return json.load(open(p)).get("findings", [])
@@ -314,15 +316,19 @@ class Tester:
         self.flavour, self.cls, self.workdir, self.timeout = flavour, cls, workdir, timeout
         self.n = 0
         self.cache = {}
+        self.fast = False      # shorter watchdog while minimising a "stuck" violation (every candidate costs seconds)
+        self.budget = None     # max candidate runs (None = unlimited)
 
     def run(self, lines):
         key = hashlib.sha1("\n".join(lines).encode()).hexdigest()
         if key in self.cache:
             return self.cache[key]
+        if self.budget is not None and self.n >= self.budget:
+            return (False, None, "", "", 0)
         self.n += 1
         path = os.path.join(self.workdir, "cand_%d_%s.plan" % (os.getpid(), key[:12]))
         write_plan(path, lines)
-        rc, res, detail, err = run_plan(self.flavour, path, self.timeout)
+        rc, res, detail, err = run_plan(self.flavour, path, self.timeout, fast_watchdog=self.fast)
         os.unlink(path)
         ok = False
         got = None
@@ -483,6 +489,8 @@ def handle_candidate(prop, cand, thorough, tmpdir):
         return dict(kind="nondeterministic", seed=seed, classes=classes, hashes=hashes,
                     first="emitted plan does not reproduce (%s)" % (res,))
     # 2. minimise within the same violation class
+    if cls0 in ("stuck", "progress"):
+        tester.fast, tester.budget = True, 80
     head, steps, tail = split_plan(lines)
     n0 = len(steps)
 
@@ -498,7 +506,8 @@ def handle_candidate(prop, cand, thorough, tmpdir):
     steps = ddmin(steps, t_steps)
     tail = minimise_schedule(head, steps, tail, lambda l: tester.run(l)[0])
     final = head + steps + tail
-    # 3. replay the minimised plan in a fresh process, twice
+    # 3. replay the minimised plan in a fresh process, twice (standard watchdog, no budget)
+    tester.fast, tester.budget = False, None
     tester.cache.clear()
     ok1, res1, detail1, err1, rc1 = tester.run(final)
     tester.cache.clear()
